@@ -335,7 +335,7 @@ def format_contracts(model, f, enforced=None, needed=None):
         tu.add('__CPROVER_requires(vp_wx <= 8 && __CPROVER_is_fresh(pdu, %d + vp_wx) && %s)' % (H, B(p['name'], bind_hdr(H))))
         tu.add('__CPROVER_assigns(__CPROVER_object_upto(pdu->header, %d))' % H)
         for k in range(H):
-            tu.add('__CPROVER_ensures(pdu->header[%d] == 0x%02x)' % (k, img[k]), 'C04:canonical-byte-%d=0x%02x' % (k, img[k]))
+            tu.add('__CPROVER_ensures(pdu->header[%d] == 0x%02x)' % (k, img[k]), 'C04+C05:canonical-byte-%d=0x%02x' % (k, img[k]))
         tu.add(';')
         tu.add('void vp_null_%s(%s* pdu)' % (p['name'], T))
         tu.add('__CPROVER_requires(pdu == NULL)')
@@ -419,9 +419,9 @@ def legacy_contracts(model, f, lg, enforced=None):
             if extra:
                 s, n = f.rows[extra]
                 tu.add('__CPROVER_ensures(%s[%d] == vp_put_byte(0x%02x, %d, %d, %d, (uint64_t)%s))' % (hbs, k, img[k], k, s, n, extra),
-                       'C04+C12:legacy-canonical-byte-%d' % k)
+                       'C04+C05+C12:legacy-canonical-byte-%d' % k)
             else:
-                tu.add('__CPROVER_ensures(%s[%d] == 0x%02x)' % (hbs, k, img[k]), 'C04+C12:legacy-canonical-byte-%d=0x%02x' % (k, img[k]))
+                tu.add('__CPROVER_ensures(%s[%d] == 0x%02x)' % (hbs, k, img[k]), 'C04+C05+C12:legacy-canonical-byte-%d=0x%02x' % (k, img[k]))
         tu.add(';')
         tu.add('int vp_inval_%s(%s)' % (lg['init'], sig))
         tu.add('__CPROVER_requires(pdu == NULL)')
@@ -478,7 +478,7 @@ def jobs_for_format(model, f, config='le'):
     OW_GET = {'post': ['C01'], 'safety': ['C03'], 'assigns': ['C01', 'C16']}
     OW_SET = {'post': ['C02', 'C05'], 'safety': ['C03'], 'assigns': ['C02', 'C16']}
     OW_NULL = {'post': ['C11'], 'safety': ['C11'], 'assigns': ['C11'], 'assert': ['C11']}
-    OW_INIT = {'post': ['C04'], 'safety': ['C03'], 'assigns': ['C04', 'C16']}
+    OW_INIT = {'post': ['C04', 'C05'], 'safety': ['C03'], 'assigns': ['C04', 'C05', 'C16']}
     rp = lambda **kw: dict(fmt=f.key, H=H, header=f.spec['header'], source=f.spec['source'], T=T, **kw)
     for (p, row) in f.getters:
         s, n = f.rows[row]
@@ -568,7 +568,7 @@ def legacy_jobs(model, config='le'):
             callees = [q['name'] for (q, _) in f.setters] + [f.setfield['name'], lg['set']]
             if f.init is not None:
                 callees.append(f.init['name'])
-            OWL = {'post': ['C04', 'C12'], 'safety': ['C12'], 'assigns': ['C04', 'C12', 'C16']}
+            OWL = {'post': ['C04', 'C05', 'C12'], 'safety': ['C12'], 'assigns': ['C04', 'C05', 'C12', 'C16']}
             jobs.append(mk_job(model, f, '%s/iface' % lg['init'], lg['init'], callees, call, decl, 'legacy-init', OWL,
                                lg['init'], extra_tu=ltu, config=config))
             jobs.append(mk_job(model, f, '%s/invalid' % lg['init'], '%s/vp_inval_%s' % (lg['init'], lg['init']),
